@@ -357,6 +357,13 @@ class SimEnv:
         tracer = None
         if self.spec.get("syspath"):
             sys.path.insert(0, self.dir)
+        old_fsize = None
+        if self.spec.get("fsize_limit") is not None:
+            # a REAL limit on the size of files this process may write (the kernel cuts writes short / fails them with
+            # EFBIG; CPython ignores SIGXFSZ): reaches every way of writing a file, not only the interposed open()
+            import resource
+            old_fsize = resource.getrlimit(resource.RLIMIT_FSIZE)
+            resource.setrlimit(resource.RLIMIT_FSIZE, (int(self.spec["fsize_limit"]), old_fsize[1]))
         try:
             try:
                 if self.spec.get("crash_at") is not None or self.spec.get("count_lines"):
@@ -377,6 +384,9 @@ class SimEnv:
             except BaseException as e:  # noqa - what the interpreter would turn into exit status 1
                 status, exc = 1, {"type": type(e).__name__, "msg": str(e).split("\n", 1)[0][:300]}
         finally:
+            if old_fsize is not None:
+                import resource
+                resource.setrlimit(resource.RLIMIT_FSIZE, old_fsize)
             sys.argv, sys.stdout, sys.stderr = old_argv, old_out, old_err
             os.chdir(old_cwd)
             for mod, attr, cur in other_saved:
